@@ -295,6 +295,10 @@ class History:
                 tracer = ins.SiteTracer(inject=fault["site"], exc=exc)
             elif "deep" in fault:
                 tracer = ins.SiteTracer(deep=fault["deep"], exc=exc)
+            elif "connector" in fault:
+                conn = ins.faulty_connector(inject=tuple(fault["connector"]), exc=exc)
+                simulator = w.simcls(d=w.subj["d"], config=w.config, connector=conn)
+                self._conn = conn
             elif "exit" in fault:
                 mon = ins.Monitor()
                 mon.exit_fault = (fault["exit"], exc)
@@ -323,6 +327,9 @@ class History:
                 self.stats["fired"] += 1
                 self.fired_any = True
             self.last_tracer = tracer
+        if isinstance(fault, dict) and "connector" in fault and self._conn._dst_state["fired"]:
+            self.stats["fired"] += 1
+            self.fired_any = True
         if mon is not None and outcome.startswith("raised:injected"):
             self.stats["fired"] += 1
             self.fired_any = True
@@ -667,6 +674,22 @@ def run_index(seed, idx, tier):
         stage = "site" if "site" in plan_ else ("exit" if "exit" in plan_ else "deep")
         finish(rec, sc, True)
         out[-1]["counters"].setdefault("injections_by_stage_kind", {})["%s:%s" % (stage if stage != "site" else _callee_stage(plan_["site"][1]), plan_["kind"])] = 1
+    # (c2) faults inside connector calculation functions (reaches native kernels, which settrace cannot see)
+    try:
+        conn = ins.faulty_connector()
+        w0 = World(copy.deepcopy(sc0))
+        w0.simcls(d=w0.subj["d"], config=w0.config, connector=conn).execute(w0.program, shots=w0.subj["shots"], initial_state=w0.initial_state)
+        conn_calls = dict(conn._dst_calls)
+    except Exception:  # noqa: BLE001
+        conn_calls = {}
+    out[0]["counters"]["connector_functions_called"] = {k: 1 for k in conn_calls}
+    for name, n_calls in sorted(conn_calls.items()):
+        for k in sorted({0, n_calls - 1, rng.randrange(n_calls)})[: 2 if tier == "quick" else 3]:
+            sc = copy.deepcopy(fam)
+            sc["ops"][op_index]["fault"] = {"connector": [name, k], "kind": rng.pick(KINDS)}
+            rec = judge(sc)
+            finish(rec, sc, True)
+            out[-1]["counters"].setdefault("injections_by_stage_kind", {})["connector:%s" % name] = 1
     # (d) a second fault on the same objects (two failed executes in a row), sampled
     if len(sites) >= 2 and rng.chance(0.5):
         sc = copy.deepcopy(fam)
@@ -731,7 +754,7 @@ def _stage_of(sc):
         if isinstance(f, dict):
             if "site" in f:
                 return _callee_stage(f["site"][1])
-            return "exit" if "exit" in f else "deep"
+            return "exit" if "exit" in f else ("connector" if "connector" in f else "deep")
     return "fault-free"
 
 
